@@ -126,23 +126,85 @@ theorem parseInt64_head {c : UInt8} {r : Bytes} {t : Int} (h : parseInt64 (c :: 
 
 theorem parseInt64_nil : parseInt64 [] = none := by decide
 
-/-! ### the names extracted from the source -/
+/-! ### the names: constants from the source, plus the block-key binding -/
 
-theorem sep_not_mem_names : sep ∉ Kind.decodeName .priv ∧ sep ∉ Kind.decodeName .pub ∧
-    sep ∉ Kind.encodeName .priv ∧ sep ∉ Kind.encodeName .pub := by decide
+theorem sep_not_mem_toHex (b : Bytes) : sep ∉ Bytes.toHex b := by
+  intro h
+  have := Bytes.mem_toHex h
+  have hs : sep.toNat = 124 := by decide
+  omega
 
-theorem names_agree (k : Kind) : k.encodeName = k.decodeName := by
-  cases k <;> decide
+theorem sep_not_mem_suffix (mac : Mac) (hk bk : Bytes) : sep ∉ nameSuffix mac hk bk := by
+  unfold nameSuffix
+  split
+  · intro h
+    rcases List.mem_append.mp h with h | h
+    · revert h; decide
+    · exact sep_not_mem_toHex _ h
+  · simp
 
-theorem names_distinct : Kind.decodeName .priv ≠ Kind.decodeName .pub := by decide
+theorem sep_not_mem_bases : sep ∉ Kind.decodeBase .priv ∧ sep ∉ Kind.decodeBase .pub ∧
+    sep ∉ Kind.encodeBase .priv ∧ sep ∉ Kind.encodeBase .pub := by decide
 
-theorem sep_not_mem_name (k : Kind) : sep ∉ k.decodeName := by
-  cases k
-  · exact sep_not_mem_names.1
-  · exact sep_not_mem_names.2.1
+theorem names_agree (k : Kind) (mac : Mac) (hk bk : Bytes) : k.encodeName mac hk bk = k.decodeName mac hk bk := by
+  unfold Kind.encodeName Kind.decodeName
+  have : k.encodeBase = k.decodeBase := by cases k <;> decide
+  rw [this]
 
-theorem decodeName_injective {k₁ k₂ : Kind} (h : k₁.decodeName = k₂.decodeName) : k₁ = k₂ := by
-  cases k₁ <;> cases k₂ <;> first | rfl | (exfalso; revert h; decide)
+theorem sep_not_mem_name (k : Kind) (mac : Mac) (hk bk : Bytes) : sep ∉ k.decodeName mac hk bk := by
+  unfold Kind.decodeName
+  intro h
+  rcases List.mem_append.mp h with h | h
+  · cases k
+    · exact sep_not_mem_bases.1 h
+    · exact sep_not_mem_bases.2.1 h
+  · exact sep_not_mem_suffix mac hk bk h
+
+/-- The two roles have different names under every key set: the constants differ in their
+second character, whatever is appended. -/
+theorem names_distinct (mac : Mac) (hk bk : Bytes) :
+    Kind.decodeName .priv mac hk bk ≠ Kind.decodeName .pub mac hk bk := by
+  unfold Kind.decodeName
+  intro h
+  have h2 := congrArg (List.take 2) h
+  rw [List.take_append_of_le_length (by decide), List.take_append_of_le_length (by decide)] at h2
+  revert h2; decide
+
+theorem decodeName_injective {k₁ k₂ : Kind} {mac : Mac} {hk bk : Bytes}
+    (h : k₁.decodeName mac hk bk = k₂.decodeName mac hk bk) : k₁ = k₂ := by
+  cases k₁ <;> cases k₂
+  · rfl
+  · exact absurd h (names_distinct mac hk bk)
+  · exact absurd h.symm (names_distinct mac hk bk)
+  · rfl
+
+theorem bound_flag : blockKeyBoundToNames = true := by decide
+
+/-- Under an ideal MAC the name suffix determines the block key (none = `[]`). -/
+theorem nameSuffix_injective {mac : Mac} (hideal : IdealMac mac) {hk bk bk' : Bytes}
+    (h : nameSuffix mac hk bk = nameSuffix mac hk bk') : bk = bk' := by
+  unfold nameSuffix at h
+  have hsep : Bytes.ascii blockKeyNameSep = [47] := by decide
+  simp only [bound_flag, true_and, hsep] at h
+  cases bk with
+  | nil =>
+    cases bk' with
+    | nil => rfl
+    | cons b r => simp at h
+  | cons a q =>
+    cases bk' with
+    | nil => simp at h
+    | cons b r =>
+      simp only [List.isEmpty_cons, Bool.false_eq_true, not_false_eq_true, if_true, List.cons_append,
+        List.nil_append, List.cons.injEq, true_and] at h
+      have := (hideal _ _ _ _ (Bytes.toHex_injective h)).2
+      exact List.append_cancel_left this
+
+/-- …and so does the full name. -/
+theorem decodeName_block_injective {mac : Mac} (hideal : IdealMac mac) {k : Kind} {hk bk bk' : Bytes}
+    (h : k.decodeName mac hk bk = k.decodeName mac hk bk') : bk = bk' := by
+  unfold Kind.decodeName at h
+  exact nameSuffix_injective hideal (List.append_cancel_left h)
 
 end SigModel.SessionId
 
@@ -265,10 +327,10 @@ theorem flags : Kind.checksCanonical .priv = true ∧ Kind.checksCanonical .pub 
     Kind.reversesOnDecode .pub = true ∧ Kind.reversesOnEncode .pub = true := by decide
 
 /-- What `DecodePrivate` / `DecodePublic` accept, spelled out. -/
-theorem decodeValue_some_iff (mac : Mac) (hk : Bytes) (k : Kind) (now : Int) (s v : Bytes) :
-    decodeValue mac hk k now s = some v ↔
+theorem decodeValue_some_iff (mac : Mac) (hk bk : Bytes) (k : Kind) (now : Int) (s v : Bytes) :
+    decodeValue mac hk bk k now s = some v ↔
       hk ≠ [] ∧ s.length ≤ maxLength ∧ ∃ date vb tag, s = wire k (cookieBytes date vb tag) ∧
-        sep ∉ date ∧ sep ∉ vb ∧ tag = mac hk (macMsg k.decodeName date vb) ∧
+        sep ∉ date ∧ sep ∉ vb ∧ tag = mac hk (macMsg (k.decodeName mac hk bk) date vb) ∧
         (parseInt64 date).isSome = true ∧ unb64 vb = some v := by
   constructor
   · intro h
@@ -384,19 +446,19 @@ theorem cacheKey_injective {k k' : Kind} {id id' : Bytes} (h : cacheKey k id = c
 theorem cacheFill_flag : cacheFilledOnlyAfterSuccessfulDecode = true := by decide
 
 /-- With `MaxAge(0)` the clock plays no role in decoding. -/
-theorem decodeValue_clock (mac : Mac) (hk : Bytes) (k : Kind) (t t' : Int) (s : Bytes) :
-    decodeValue mac hk k t s = decodeValue mac hk k t' s := by
-  cases h : decodeValue mac hk k t s with
-  | some v => exact ((decodeValue_some_iff _ _ _ t' _ _).mpr ((decodeValue_some_iff _ _ _ t _ _).mp h)).symm
+theorem decodeValue_clock (mac : Mac) (hk bk : Bytes) (k : Kind) (t t' : Int) (s : Bytes) :
+    decodeValue mac hk bk k t s = decodeValue mac hk bk k t' s := by
+  cases h : decodeValue mac hk bk k t s with
+  | some v => exact ((decodeValue_some_iff _ _ _ _ t' _ _).mpr ((decodeValue_some_iff _ _ _ _ t _ _).mp h)).symm
   | none =>
-    cases h' : decodeValue mac hk k t' s with
+    cases h' : decodeValue mac hk bk k t' s with
     | none => rfl
     | some v =>
-      rw [(decodeValue_some_iff _ _ _ t _ _).mpr ((decodeValue_some_iff _ _ _ t' _ _).mp h')] at h
+      rw [(decodeValue_some_iff _ _ _ _ t _ _).mpr ((decodeValue_some_iff _ _ _ _ t' _ _).mp h')] at h
       cases h
 
-theorem decodeId_clock (mac : Mac) (hk : Bytes) (open_ : Bytes → Option Bytes) (k : Kind) (t t' : Int) (s : Bytes) :
-    decodeId mac hk open_ k t s = decodeId mac hk open_ k t' s := by
-  unfold decodeId; rw [decodeValue_clock mac hk k t t' s]
+theorem decodeId_clock (mac : Mac) (hk bk : Bytes) (open_ : Bytes → Option Bytes) (k : Kind) (t t' : Int) (s : Bytes) :
+    decodeId mac hk bk open_ k t s = decodeId mac hk bk open_ k t' s := by
+  unfold decodeId; rw [decodeValue_clock mac hk bk k t t' s]
 
 end SigModel.SessionId
